@@ -325,15 +325,18 @@ namespace Pistache::Rest
         }
         else
         { // current leaf requested, or empty final optional
-            if (!optional_.empty())
+            // trailing optional parameters may be absent: in case of more than one
+            // optional at this point, as it is an ambiguity, it is resolved by using
+            // the first one that leads to a route; if none does (an optional in the
+            // middle of some other pattern) this node's own route still answers
+            for (const auto& optional : optional_)
             {
-                // in case of more than one optional at this point, as it is an
-                // ambiguity, it is resolved by using the first optional
-                auto optional = optional_.begin();
-                // std::string opt {optional->first.data(), optional->first.length()};
-                return optional->second->findRoute(path, params, splats);
+                auto result = optional.second->findRoute(path, params, splats);
+                if (std::get<0>(result) != nullptr)
+                    return result;
             }
-            else if (route_ == nullptr)
+
+            if (route_ == nullptr)
             {
                 // if we are here but route is null, we reached this point
                 // trying to parse an optional, that was missing
